@@ -232,17 +232,25 @@ public:
     CXX20_REQUIRES(std::same_as<T, decltype(std::declval<Fn>()())>)
     promise_extra_storage(Fn &&fn):_factory(std::forward<Fn>(fn)) {}
 
+    ///offset of the extra object behind the frame - respects alignment of T
+    /** (the frame itself is aligned at least as operator new aligns) */
+    static constexpr std::size_t extra_offset(std::size_t sz) {
+        return (sz + alignof(T) - 1) / alignof(T) * alignof(T);
+    }
+
     void *alloc(std::size_t sz) {
-        void *ptr = Alloc::alloc(sz+sizeof(T));
-        void *inv = static_cast<std::uint8_t *>(ptr)+sz;
+        std::size_t ofs = extra_offset(sz);
+        void *ptr = Alloc::alloc(ofs+sizeof(T));
+        void *inv = static_cast<std::uint8_t *>(ptr)+ofs;
         inventory = new(inv) T(_factory());
        return ptr;
     }
 
     static void dealloc(void *ptr, std::size_t sz) {
-        T *x = reinterpret_cast<T *>(static_cast<std::uint8_t *>(ptr)+sz);
+        std::size_t ofs = extra_offset(sz);
+        T *x = reinterpret_cast<T *>(static_cast<std::uint8_t *>(ptr)+ofs);
         x->~T();
-        Alloc::dealloc(ptr,sz+sizeof(T));
+        Alloc::dealloc(ptr,ofs+sizeof(T));
     }
 
     T * inventory;
